@@ -745,16 +745,8 @@ func (c *codegen) Visit(node ast.Node) ast.Visitor {
 				multiRet := n.Tok == token.VAR && len(t.Values) != 0 && len(t.Names) != len(t.Values)
 				defaultGlobal := len(t.Values) == 0 && c.scope == nil
 				for _, id := range t.Names {
-					if id.Name != "_" {
-						// Filter out globals: by this moment they are already registered in
-						// a separate AST traversal in registerGlobals, so handle only locals.
-						if c.scope != nil {
-							c.scope.newLocal(id.Name)
-						}
-
-						if !multiRet {
-							c.registerDebugVariable(id.Name, t.Type)
-						}
+					if id.Name != "_" && !multiRet {
+						c.registerDebugVariable(id.Name, t.Type)
 					}
 				}
 				// Filter out unassigned global variables: default values for them are already
@@ -777,6 +769,13 @@ func (c *codegen) Visit(node ast.Node) ast.Visitor {
 							} else {
 								c.saveSequencePoint(t.Names[i].Pos(), t.Names[i].End())
 							}
+						}
+						// Filter out globals: by this moment they are already registered in
+						// a separate AST traversal in registerGlobals, so handle only locals.
+						// The scope of a local begins after its ValueSpec: it is allocated
+						// when the initialiser has been walked.
+						if c.scope != nil {
+							c.scope.newLocal(id.Name)
 						}
 						c.emitStoreVar("", t.Names[i].Name)
 						continue
